@@ -315,7 +315,8 @@ type writeRec struct {
 
 type recClient struct {
 	client.Client
-	writes []writeRec
+	writes  []writeRec
+	nwrites int // monotone count of writes (writes is reset per judged call)
 	// synthetic pods served to List(PodList): n updated+ready pods owned by the workload (nil = real store)
 	podN int
 	pods bool
@@ -324,23 +325,28 @@ type recClient struct {
 func objName(o client.Object) string { return fmt.Sprintf("%T/%s", o, o.GetName()) }
 
 func (c *recClient) Create(ctx context.Context, obj client.Object, opts ...client.CreateOption) error {
+	c.nwrites++
 	c.writes = append(c.writes, writeRec{Verb: "create", Obj: objName(obj)})
 	return c.Client.Create(ctx, obj, opts...)
 }
 func (c *recClient) Update(ctx context.Context, obj client.Object, opts ...client.UpdateOption) error {
+	c.nwrites++
 	c.writes = append(c.writes, writeRec{Verb: "update", Obj: objName(obj)})
 	return c.Client.Update(ctx, obj, opts...)
 }
 func (c *recClient) Delete(ctx context.Context, obj client.Object, opts ...client.DeleteOption) error {
+	c.nwrites++
 	c.writes = append(c.writes, writeRec{Verb: "delete", Obj: objName(obj)})
 	return c.Client.Delete(ctx, obj, opts...)
 }
 func (c *recClient) DeleteAllOf(ctx context.Context, obj client.Object, opts ...client.DeleteAllOfOption) error {
+	c.nwrites++
 	c.writes = append(c.writes, writeRec{Verb: "deleteAllOf", Obj: objName(obj)})
 	return c.Client.DeleteAllOf(ctx, obj, opts...)
 }
 func (c *recClient) Patch(ctx context.Context, obj client.Object, patch client.Patch, opts ...client.PatchOption) error {
 	data, _ := patch.Data(obj)
+	c.nwrites++
 	c.writes = append(c.writes, writeRec{Verb: "patch:" + string(patch.Type()), Obj: objName(obj), Body: string(data)})
 	return c.Client.Patch(ctx, obj, patch, opts...)
 }
@@ -354,15 +360,18 @@ type recStatus struct {
 }
 
 func (s *recStatus) Create(ctx context.Context, obj client.Object, sub client.Object, opts ...client.SubResourceCreateOption) error {
+	s.c.nwrites++
 	s.c.writes = append(s.c.writes, writeRec{Verb: "status-create", Obj: objName(obj)})
 	return s.w.Create(ctx, obj, sub, opts...)
 }
 func (s *recStatus) Update(ctx context.Context, obj client.Object, opts ...client.SubResourceUpdateOption) error {
+	s.c.nwrites++
 	s.c.writes = append(s.c.writes, writeRec{Verb: "status-update", Obj: objName(obj)})
 	return s.w.Update(ctx, obj, opts...)
 }
 func (s *recStatus) Patch(ctx context.Context, obj client.Object, patch client.Patch, opts ...client.SubResourcePatchOption) error {
 	data, _ := patch.Data(obj)
+	s.c.nwrites++
 	s.c.writes = append(s.c.writes, writeRec{Verb: "status-patch", Obj: objName(obj), Body: string(data)})
 	return s.w.Patch(ctx, obj, patch, opts...)
 }
@@ -376,7 +385,7 @@ func podsUpTo(n int) []corev1.Pod {
 		podPool = append(podPool, corev1.Pod{
 			TypeMeta: metav1.TypeMeta{APIVersion: "v1", Kind: "Pod"},
 			ObjectMeta: metav1.ObjectMeta{Name: fmt.Sprintf("w-%d", i), Namespace: ns, UID: types.UID(fmt.Sprintf("uid-pod-%d", i)),
-				Labels: map[string]string{"app": "demo", apps.ControllerRevisionHashLabelKey: updateRev},
+				Labels:          map[string]string{"app": "demo", apps.ControllerRevisionHashLabelKey: updateRev},
 				OwnerReferences: []metav1.OwnerReference{{APIVersion: "apps/v1", Kind: "StatefulSet", Name: wname, UID: wUID, Controller: pointer.Bool(true)}}},
 			Status: corev1.PodStatus{Phase: corev1.PodRunning, Conditions: []corev1.PodCondition{{Type: corev1.PodReady, Status: corev1.ConditionTrue}}},
 		})
@@ -395,21 +404,75 @@ func (c *recClient) List(ctx context.Context, list client.ObjectList, opts ...cl
 
 // ---- world ---------------------------------------------------------------------------------------
 
+const startRV = "999" // what the fake tracker gives objects added without a resourceVersion
+
 type world struct {
 	t, r int
 	base client.Client
 	cli  *recClient
+	// typed copy of the object that carries the knob (the workload; for canary style the canary Deployment), refreshed from
+	// the store after every call that wrote something
+	knob     client.Object
+	rsNew    *apps.ReplicaSet // blue-green Deployment: the new ReplicaSet whose status the control reads
+	syncedAt int              // recClient.nwrites at the last refresh
+	level    int              // updated count the workload status currently reports (-1 = unknown)
 }
 
+func knobKey(t int) types.NamespacedName {
+	if t == tCanaryDeployment {
+		return types.NamespacedName{Namespace: ns, Name: "w-canary"}
+	}
+	return wkey
+}
+
+func emptyKnob(t int) client.Object {
+	switch t {
+	case tPSCloneSet, tBGCloneSet:
+		return &kruisev1alpha1.CloneSet{}
+	case tPSStatefulSet:
+		return &apps.StatefulSet{}
+	case tPSAdvStatefulSet:
+		return &kruisev1beta1.StatefulSet{}
+	case tPSDaemonSet:
+		return &kruisev1alpha1.DaemonSet{}
+	}
+	return &apps.Deployment{}
+}
+
+// newWorld builds a store from objs (the snapshot real Initialize left); level0 = updated count their status reports.
 func newWorld(t, r int, objs []client.Object) *world {
 	cp := make([]client.Object, len(objs))
+	w := &world{t: t, r: r, level: 0}
 	for i, o := range objs {
 		cp[i] = o.DeepCopyObject().(client.Object)
+		if cp[i].GetResourceVersion() == "" {
+			cp[i].SetResourceVersion(startRV)
+		}
+		if cp[i].GetName() == knobKey(t).Name {
+			if _, isRS := cp[i].(*apps.ReplicaSet); !isRS {
+				w.knob = cp[i].DeepCopyObject().(client.Object)
+			}
+		}
+		if rs, ok := cp[i].(*apps.ReplicaSet); ok && rs.Name == "w-new" {
+			w.rsNew = rs.DeepCopy()
+		}
 	}
-	base := fake.NewClientBuilder().WithScheme(scheme).WithObjects(cp...).Build()
-	w := &world{t: t, r: r, base: base}
-	w.cli = &recClient{Client: base, pods: t == tPSStatefulSet || t == tPSAdvStatefulSet || t == tPSDaemonSet}
+	w.base = fake.NewClientBuilder().WithScheme(scheme).WithObjects(cp...).Build()
+	w.cli = &recClient{Client: w.base, pods: t == tPSStatefulSet || t == tPSAdvStatefulSet || t == tPSDaemonSet}
 	return w
+}
+
+func (w *world) refresh() error {
+	if w.knob != nil && w.syncedAt == w.cli.nwrites {
+		return nil
+	}
+	o := emptyKnob(w.t)
+	if err := w.base.Get(context.TODO(), knobKey(w.t), o); err != nil {
+		return err
+	}
+	w.knob = o
+	w.syncedAt = w.cli.nwrites
+	return nil
 }
 
 // initialised runs the REAL Initialize of the control plane on the pre-release objects and returns the resulting objects.
@@ -427,32 +490,18 @@ func initialised(t, r int) ([]client.Object, error) {
 		// Create() always answers "created ..., waiting informer synced" and registers a create-expectation that only a
 		// watch event clears; the canary object is in the store, which is all this driver needs.
 		expectations.ResourceExpectations.DeleteExpectations(client.ObjectKeyFromObject(br).String())
-		err = nil
 	}
 	if err != nil {
 		return nil, fmt.Errorf("real Initialize failed: %v", err)
 	}
 	var out []client.Object
+	ctx := context.TODO()
 	switch t {
-	case tPSCloneSet, tBGCloneSet:
-		o := &kruisev1alpha1.CloneSet{}
-		err = w.base.Get(context.TODO(), wkey, o)
-		out = append(out, o)
-	case tPSStatefulSet:
-		o := &apps.StatefulSet{}
-		err = w.base.Get(context.TODO(), wkey, o)
-		out = append(out, o)
-	case tPSAdvStatefulSet:
-		o := &kruisev1beta1.StatefulSet{}
-		err = w.base.Get(context.TODO(), wkey, o)
-		out = append(out, o)
-	case tPSDaemonSet:
-		o := &kruisev1alpha1.DaemonSet{}
-		err = w.base.Get(context.TODO(), wkey, o)
-		out = append(out, o)
 	case tPSDeployment, tCanaryDeployment, tBGDeployment:
 		dl := &apps.DeploymentList{}
-		err = w.base.List(context.TODO(), dl, client.InNamespace(ns))
+		if err := w.base.List(ctx, dl, client.InNamespace(ns)); err != nil {
+			return nil, err
+		}
 		nCanary := 0
 		for i := range dl.Items {
 			d := dl.Items[i].DeepCopy()
@@ -465,7 +514,6 @@ func initialised(t, r int) ([]client.Object, error) {
 				d.Status.ObservedGeneration = 1
 				nCanary++
 			}
-			d.ResourceVersion = ""
 			out = append(out, d)
 		}
 		if t == tCanaryDeployment && nCanary != 1 {
@@ -473,26 +521,27 @@ func initialised(t, r int) ([]client.Object, error) {
 		}
 		if t == tBGDeployment {
 			rl := &apps.ReplicaSetList{}
-			if err2 := w.base.List(context.TODO(), rl, client.InNamespace(ns)); err2 != nil {
-				return nil, err2
+			if err := w.base.List(ctx, rl, client.InNamespace(ns)); err != nil {
+				return nil, err
 			}
 			for i := range rl.Items {
-				rs := rl.Items[i].DeepCopy()
-				rs.ResourceVersion = ""
-				out = append(out, rs)
+				out = append(out, rl.Items[i].DeepCopy())
 			}
 		}
-	}
-	if err != nil {
-		return nil, err
+	default:
+		o := emptyKnob(t)
+		if err := w.base.Get(ctx, wkey, o); err != nil {
+			return nil, err
+		}
+		out = append(out, o)
 	}
 	for _, o := range out {
-		o.SetResourceVersion("")
+		o.SetResourceVersion(startRV)
 	}
 	return out, nil
 }
 
-// knob describes the update setting for violation details.
+// knobState describes the update setting for violation details.
 type knobState struct {
 	Exposure int    `json:"exposure"`
 	Knob     string `json:"knob"`
@@ -508,73 +557,50 @@ func ios(p *intstr.IntOrString) string {
 
 // read returns exposure(obj) by my interpreter plus a printable knob.
 func (w *world) read() (knobState, error) {
-	ctx := context.TODO()
-	switch w.t {
-	case tPSCloneSet, tBGCloneSet:
-		o := &kruisev1alpha1.CloneSet{}
-		if err := w.base.Get(ctx, wkey, o); err != nil {
-			return knobState{}, err
-		}
+	if err := w.refresh(); err != nil {
+		return knobState{}, err
+	}
+	switch o := w.knob.(type) {
+	case *kruisev1alpha1.CloneSet:
 		us := o.Spec.UpdateStrategy
 		k := fmt.Sprintf("paused=%v partition=%s maxSurge=%s", us.Paused, ios(us.Partition), ios(us.MaxSurge))
 		if w.t == tPSCloneSet {
 			return knobState{exposurePSCloneSet(o), k, i32(o.Spec.Replicas, 1)}, nil
 		}
 		return knobState{exposureBGCloneSet(o), k, i32(o.Spec.Replicas, 1)}, nil
-	case tPSStatefulSet:
-		o := &apps.StatefulSet{}
-		if err := w.base.Get(ctx, wkey, o); err != nil {
-			return knobState{}, err
-		}
+	case *apps.StatefulSet:
 		k := "partition=nil"
 		if ru := o.Spec.UpdateStrategy.RollingUpdate; ru != nil && ru.Partition != nil {
 			k = fmt.Sprintf("partition=%d", *ru.Partition)
 		}
 		return knobState{exposureStatefulSet(o), k, i32(o.Spec.Replicas, 1)}, nil
-	case tPSAdvStatefulSet:
-		o := &kruisev1beta1.StatefulSet{}
-		if err := w.base.Get(ctx, wkey, o); err != nil {
-			return knobState{}, err
-		}
+	case *kruisev1beta1.StatefulSet:
 		k := "partition=nil"
 		if ru := o.Spec.UpdateStrategy.RollingUpdate; ru != nil && ru.Partition != nil {
 			k = fmt.Sprintf("partition=%d paused=%v", *ru.Partition, ru.Paused)
 		}
 		return knobState{exposureAdvStatefulSet(o), k, i32(o.Spec.Replicas, 1)}, nil
-	case tPSDaemonSet:
-		o := &kruisev1alpha1.DaemonSet{}
-		if err := w.base.Get(ctx, wkey, o); err != nil {
-			return knobState{}, err
-		}
+	case *kruisev1alpha1.DaemonSet:
 		k := "rollingUpdate=nil"
 		if ru := o.Spec.UpdateStrategy.RollingUpdate; ru != nil {
 			k = fmt.Sprintf("partition=%d", i32(ru.Partition, 0))
 		}
 		return knobState{exposureDaemonSet(o), k, int(o.Status.DesiredNumberScheduled)}, nil
-	case tPSDeployment:
-		o := &apps.Deployment{}
-		if err := w.base.Get(ctx, wkey, o); err != nil {
-			return knobState{}, err
+	case *apps.Deployment:
+		switch w.t {
+		case tPSDeployment:
+			return knobState{exposurePSDeployment(o), "strategy=" + o.Annotations[annoDeployStrategy], i32(o.Spec.Replicas, 1)}, nil
+		case tBGDeployment:
+			k := fmt.Sprintf("paused=%v type=%s", o.Spec.Paused, o.Spec.Strategy.Type)
+			if ru := o.Spec.Strategy.RollingUpdate; ru != nil {
+				k += fmt.Sprintf(" maxSurge=%s maxUnavailable=%s", ios(ru.MaxSurge), ios(ru.MaxUnavailable))
+			}
+			return knobState{exposureBGDeployment(o), k, i32(o.Spec.Replicas, 1)}, nil
+		case tCanaryDeployment:
+			return knobState{exposureCanaryDeployment(o), fmt.Sprintf("canary.spec.replicas=%d", i32(o.Spec.Replicas, 1)), w.r}, nil
 		}
-		return knobState{exposurePSDeployment(o), "strategy=" + o.Annotations[annoDeployStrategy], i32(o.Spec.Replicas, 1)}, nil
-	case tBGDeployment:
-		o := &apps.Deployment{}
-		if err := w.base.Get(ctx, wkey, o); err != nil {
-			return knobState{}, err
-		}
-		k := fmt.Sprintf("paused=%v type=%s", o.Spec.Paused, o.Spec.Strategy.Type)
-		if ru := o.Spec.Strategy.RollingUpdate; ru != nil {
-			k += fmt.Sprintf(" maxSurge=%s maxUnavailable=%s", ios(ru.MaxSurge), ios(ru.MaxUnavailable))
-		}
-		return knobState{exposureBGDeployment(o), k, i32(o.Spec.Replicas, 1)}, nil
-	case tCanaryDeployment:
-		o := &apps.Deployment{}
-		if err := w.base.Get(ctx, types.NamespacedName{Namespace: ns, Name: "w-canary"}, o); err != nil {
-			return knobState{}, err
-		}
-		return knobState{exposureCanaryDeployment(o), fmt.Sprintf("canary.spec.replicas=%d", i32(o.Spec.Replicas, 1)), w.r}, nil
 	}
-	return knobState{}, fmt.Errorf("unknown target")
+	return knobState{}, fmt.Errorf("unknown knob object %T", w.knob)
 }
 
 // updatedCount: how many pods the workload reports on the update revision once its controller has done exactly what the
@@ -602,77 +628,56 @@ func (w *world) updatedCount(exposure int, nn *int32) int {
 // settle plays the workload controller: status (and pods / ReplicaSet / extra-status annotation) say that `updated` pods run the
 // update revision and all of them are ready. Environment write: goes to the store directly, not through the recorder.
 func (w *world) settle(updated int) error {
+	if err := w.refresh(); err != nil {
+		return err
+	}
+	if w.level == updated {
+		return nil
+	}
 	ctx := context.TODO()
 	u := int32(updated)
-	switch w.t {
-	case tPSCloneSet, tBGCloneSet:
-		o := &kruisev1alpha1.CloneSet{}
-		if err := w.base.Get(ctx, wkey, o); err != nil {
-			return err
-		}
+	switch o := w.knob.(type) {
+	case *kruisev1alpha1.CloneSet:
 		o.Status.UpdatedReplicas, o.Status.UpdatedReadyReplicas, o.Status.ObservedGeneration = u, u, o.Generation
 		if w.t == tBGCloneSet {
 			o.Status.Replicas, o.Status.ReadyReplicas, o.Status.AvailableReplicas = int32(w.r)+u, int32(w.r)+u, int32(w.r)
 		}
-		return w.base.Update(ctx, o)
-	case tPSStatefulSet:
-		o := &apps.StatefulSet{}
-		if err := w.base.Get(ctx, wkey, o); err != nil {
-			return err
-		}
+	case *apps.StatefulSet:
 		o.Status.UpdatedReplicas, o.Status.ObservedGeneration = u, o.Generation
 		w.cli.podN = updated
-		return w.base.Update(ctx, o)
-	case tPSAdvStatefulSet:
-		o := &kruisev1beta1.StatefulSet{}
-		if err := w.base.Get(ctx, wkey, o); err != nil {
-			return err
-		}
+	case *kruisev1beta1.StatefulSet:
 		o.Status.UpdatedReplicas, o.Status.ObservedGeneration = u, o.Generation
 		w.cli.podN = updated
-		return w.base.Update(ctx, o)
-	case tPSDaemonSet:
-		o := &kruisev1alpha1.DaemonSet{}
-		if err := w.base.Get(ctx, wkey, o); err != nil {
-			return err
-		}
+	case *kruisev1alpha1.DaemonSet:
 		o.Status.UpdatedNumberScheduled, o.Status.ObservedGeneration = u, o.Generation
 		w.cli.podN = updated
-		return w.base.Update(ctx, o)
-	case tPSDeployment:
-		o := &apps.Deployment{}
-		if err := w.base.Get(ctx, wkey, o); err != nil {
-			return err
+	case *apps.Deployment:
+		switch w.t {
+		case tPSDeployment:
+			o.Status.UpdatedReplicas, o.Status.ObservedGeneration = u, o.Generation
+			b, _ := json.Marshal(map[string]int32{"updatedReadyReplicas": u, "expectedUpdatedReplicas": u})
+			o.Annotations[annoDeployExtraStatus] = string(b)
+		case tBGDeployment:
+			o.Status.UpdatedReplicas, o.Status.ObservedGeneration = u, o.Generation
+			o.Status.Replicas, o.Status.ReadyReplicas = int32(w.r)+u, int32(w.r)+u
+			if w.rsNew == nil {
+				return fmt.Errorf("new ReplicaSet missing")
+			}
+			w.rsNew.Spec.Replicas = pointer.Int32(u)
+			w.rsNew.Status.Replicas, w.rsNew.Status.ReadyReplicas, w.rsNew.Status.AvailableReplicas = u, u, 0
+			if err := w.base.Update(ctx, w.rsNew); err != nil {
+				return err
+			}
+		case tCanaryDeployment:
+			o.Status.Replicas, o.Status.UpdatedReplicas, o.Status.ReadyReplicas, o.Status.AvailableReplicas = u, u, u, u
+			o.Status.ObservedGeneration = o.Generation
 		}
-		o.Status.UpdatedReplicas, o.Status.ObservedGeneration = u, o.Generation
-		b, _ := json.Marshal(map[string]int32{"updatedReadyReplicas": u, "expectedUpdatedReplicas": u})
-		o.Annotations[annoDeployExtraStatus] = string(b)
-		return w.base.Update(ctx, o)
-	case tBGDeployment:
-		o := &apps.Deployment{}
-		if err := w.base.Get(ctx, wkey, o); err != nil {
-			return err
-		}
-		o.Status.UpdatedReplicas, o.Status.ObservedGeneration = u, o.Generation
-		o.Status.Replicas, o.Status.ReadyReplicas = int32(w.r)+u, int32(w.r)+u
-		if err := w.base.Update(ctx, o); err != nil {
-			return err
-		}
-		rs := &apps.ReplicaSet{}
-		if err := w.base.Get(ctx, types.NamespacedName{Namespace: ns, Name: "w-new"}, rs); err != nil {
-			return err
-		}
-		rs.Spec.Replicas = pointer.Int32(u)
-		rs.Status.Replicas, rs.Status.ReadyReplicas = u, u
-		return w.base.Update(ctx, rs)
-	case tCanaryDeployment:
-		o := &apps.Deployment{}
-		if err := w.base.Get(ctx, types.NamespacedName{Namespace: ns, Name: "w-canary"}, o); err != nil {
-			return err
-		}
-		o.Status.Replicas, o.Status.UpdatedReplicas, o.Status.ReadyReplicas, o.Status.AvailableReplicas = u, u, u, u
-		o.Status.ObservedGeneration = o.Generation
-		return w.base.Update(ctx, o)
+	default:
+		return fmt.Errorf("unknown knob object %T", w.knob)
 	}
-	return fmt.Errorf("unknown target")
+	if err := w.base.Update(ctx, w.knob); err != nil {
+		return err
+	}
+	w.level = updated
+	return nil
 }
